@@ -719,3 +719,87 @@ class BNGetCpds(Contract):
 
 
 register(BNGetCpds())
+
+
+class BNAddCpds(Contract):
+    """BayesianNetwork.add_cpds(cpd) on a model that holds at most one CPD per variable:
+       ValueError exactly when the object is not a TabularCPD / ContinuousFactor or its scope names a non-node (nothing changes);
+       otherwise the list holds the new CPD, every old CPD of another variable, nothing else - so it still holds at most one CPD
+       per variable, and the CPD of that variable is the new one.  The graph is not modified."""
+    file = "pgmpy/models/BayesianNetwork.py"
+    qual = "BayesianNetwork.add_cpds"
+
+    def variants(self, ex):
+        g = new_bn()
+        L = Coll("list", Opaque, z3.Const("cpds", set_sort(Opaque)))
+        L.len_z = z3.Int("n_cpds")
+        g.fields["cpds"] = L
+        yield "one-cpd", {"self": g}, {"positional": [g, Scalar(z3.Const("new_cpd", Opaque), "CPD")]}
+
+    var = z3.Function("cpd_variable", Opaque, Atom)
+    scope = z3.Function("opaque_scope", Opaque, set_sort(Atom))
+    is_cpd = z3.Function("cpd_isinstance_ContinuousFactor_TabularCPD", Opaque, B)
+
+    def unique(self, mem):
+        c, d = fresh("c", Opaque), fresh("d", Opaque)
+        return z3.ForAll([c, d], z3.Implies(z3.And(mem[c], mem[d], self.var(c) == self.var(d)), c == d))
+
+    def inj(self, ex, st, L):
+        """no two positions of the list hold CPDs of the same variable (in particular no object twice)"""
+        at, _ = ex.seq_of(L, st)
+        i, j = fresh("i", z3.IntSort()), fresh("j", z3.IntSort())
+        return z3.ForAll([i, j], z3.Implies(z3.And(0 <= i, i < L.len_z, 0 <= j, j < L.len_z, self.var(at(i)) == self.var(at(j))), i == j))
+
+    def pre(self, ex, st, args):
+        from vf.pyvc.engine import nonempty
+        L = args["self"].fields["cpds"]
+        return z3.And(wf_graph(args["self"]), self.inj(ex, st, L), L.len_z >= 0, (L.len_z == 0) == z3.Not(nonempty(L.mem, Opaque)))
+
+    def snapshot(self, ex, st, args):
+        old = graph_snapshot(args["self"])
+        old["cpds"] = args["self"].fields["cpds"].mem
+        return old
+
+    def new(self, st):
+        return st.env["cpds"].items[0].z
+
+    def havoc(self, ex, st, args):
+        L = args["self"].fields["cpds"]
+        L.mem, L.items, L.len_z, L.seq = fresh("cpds_after", set_sort(Opaque)), None, None, None
+
+    def raises(self, ex, st, args):
+        c = self.new(st)
+        x = fresh("x", Atom)
+        return {"ValueError": z3.Or(z3.Not(self.is_cpd(c)), z3.Exists([x], z3.And(self.scope(c)[x], z3.Not(N_(args["self"], x)))))}
+
+    def on_raise(self, ex, st, args, old, exc):
+        y = fresh("y", Opaque)
+        return z3.And(graph_unchanged(args["self"], old), z3.ForAll([y], args["self"].fields["cpds"].mem[y] == old["cpds"][y]))
+
+    def post(self, ex, st, args, old, result):
+        g = args["self"]
+        c = self.new(st)
+        M, L0 = g.fields["cpds"].mem, old["cpds"]
+        y = fresh("y", Opaque)
+        return {"content": z3.ForAll([y], M[y] == z3.Or(y == c, z3.And(L0[y], self.var(y) != self.var(c)))),
+                "one-cpd-per-variable": self.unique(M),
+                "one-position-per-variable": self.inj(ex, st, g.fields["cpds"]),
+                "graph-untouched": graph_unchanged(g, old)}
+
+    # loop 1: for prev_cpd_index in range(len(self.cpds))   (loop 0, over the argument tuple, is unrolled)
+    def inv1(self, ex, st, args, old, ghost):
+        g = args["self"]
+        L = g.fields["cpds"]
+        at, _ = ex.seq_of(L, st)
+        done = ghost["done"]
+        c = self.new(st)
+        n0 = z3.Int("n_cpds")   # the length at entry: the list is only written immediately before `break`
+        i, y = fresh("i", z3.IntSort()), fresh("y", Opaque)
+        return z3.And(graph_unchanged(g, old), z3.ForAll([y], L.mem[y] == old["cpds"][y]), self.inj(ex, st, L), L.len_z == n0,
+                      z3.ForAll([i], ghost["iter"][i] == z3.And(0 <= i, i < n0)),
+                      z3.ForAll([i], z3.Implies(done[i], z3.And(0 <= i, i < n0, self.var(at(i)) != self.var(c)))))
+
+    invariants = property(lambda self: {1: self.inv1})
+
+
+register(BNAddCpds())
